@@ -20,7 +20,11 @@ RULE = ("histories of caching runs of the real Balancer over one cache directory
         "empty, truncated prefixes, complete, garbage) followed by a run, and real kills of a caching run in a "
         "subprocess at the k-th write into the cache directory, and at the k-th statement executed inside the cache "
         "manager's own code (sys.monitoring LINE events; independent of the file layout), followed by a normal run; distinct non-trivial = "
-        "distinct (history | crash state) whose last run hit a cache file left by an earlier run or state")
+        "distinct (history | crash state) whose last run hit a cache file left by an earlier run or state; entry addressing: "
+        "the cache manager's own key function (hooked on the real class, payload shape captured from a real caching run) "
+        "is driven with 4e5 (quick) / 2e6 (thorough) distinct two-reaction batches from the corpus; two batches sharing "
+        "an address are run for real one after the other over one cache directory and the second is judged against its "
+        "uncached run (only that end-to-end disagreement is a violation)")
 ASSUMPTIONS = ["the cache-free run of the same configuration is the reference (memoised per configuration)",
                "a kill is simulated with os._exit inside the write call (after writing half of that chunk and flushing)"]
 TIMEOUT = {"quick": 1500, "thorough": 3400}
@@ -204,6 +208,80 @@ def history(idx, res):
             res.case(["history", names])
             res.count("histories_ending_in_cache_hit")
     finally:
+        shutil.rmtree(d, ignore_errors=True)
+
+
+def keyspace(n, res, seed):
+    """Entry addressing under stress: the cache manager's own key function (hooked on the real class, shape of the
+    payload captured from a real caching run) is driven with n distinct (configuration, batch) payloads built from
+    pairs of corpus reactions; two distinct batches that get one address are then run for real, one after the other
+    over one cache directory, and the second run is judged against its uncached run like every other history.  Only
+    that end-to-end disagreement is a violation; when the key function is not there to hook the stress is waived."""
+    import copy
+    from vgen import corpus
+    try:
+        from synrbl.SynUtils import batching
+        CM = batching.CacheManager
+        orig = CM.get_hash_key
+    except Exception:  # noqa
+        res.count("keyspace:unavailable")
+        return
+    seen_payloads = []
+
+    def spy(self, data):
+        seen_payloads.append(copy.deepcopy(data))
+        return orig(self, data)
+
+    def observed(inputs, cache_dir, name):
+        del seen_payloads[:]
+        CM.get_hash_key = spy
+        try:
+            run = {"name": name, "inputs": inputs, "bs": None, "t": 0, "col": "reaction"}
+            return run, do_run(run, cache_dir), list(seen_payloads)
+        finally:
+            CM.get_hash_key = orig
+
+    d = tempfile.mkdtemp(prefix="verif_c12k_")
+    try:
+        probe = ["CC(=O)OC>>CC(=O)O", "CCBr.[OH-]>>CCO"]
+        _, _, pl = observed(probe, d, "keyspace:probe")
+        tmpl = pl[0] if pl else None
+        ok = (isinstance(tmpl, dict) and isinstance(tmpl.get("data"), list) and len(tmpl["data"]) == 2
+              and all(isinstance(r, dict) and r.get("reaction") == x for r, x in zip(tmpl["data"], probe)))
+        if not ok:
+            res.count("keyspace:unavailable")
+            return
+        pool = sorted({r["reaction"] for r in corpus.validation_rows()} | {rx for _, rx in corpus.raw_reactions() if rx})
+        rng = common.rng(seed, "C12-keyspace")
+        N = len(pool)
+        cm = CM(cache_dir=os.path.join(d, "k"))
+        keys = {}
+        collisions = []
+        picks = rng.sample(range(N * N), min(n, N * N))
+        for k in picks:
+            payload = {kk: vv for kk, vv in tmpl.items() if kk != "data"}
+            payload["data"] = [dict(tmpl["data"][0], reaction=pool[k // N]), dict(tmpl["data"][1], reaction=pool[k % N])]
+            key = orig(cm, payload)
+            other = keys.setdefault(key, k)
+            if other != k:
+                collisions.append((other, k))
+        res.count("keyspace_payloads", len(picks))
+        res.count("keyspace_distinct_addresses", len(keys))
+        res.ev()
+        for a, b in collisions[:3]:
+            res.count("keyspace_address_shared_by_two_batches")
+            e = tempfile.mkdtemp(prefix="verif_c12k_")
+            try:
+                ia, ib = [pool[a // N], pool[a % N]], [pool[b // N], pool[b % N]]
+                observed(ia, e, "keyspace:%d" % a)
+                run_b, got, pl_b = observed(ib, e, "keyspace:%d" % b)
+                res.count("keyspace_confirmation_runs")
+                judge(run_b, got, res, dict(case={"keyspace": {"first": ia, "then": ib}}))
+            finally:
+                shutil.rmtree(e, ignore_errors=True)
+        res.case(["keyspace", len(picks)])
+    finally:
+        CM.get_hash_key = orig
         shutil.rmtree(d, ignore_errors=True)
 
 
@@ -406,11 +484,13 @@ def plan(tier, seed):
         hist.append([rng.choice(alphabet) for _ in range(rng.choice([4, 5]))])
     shards = [{"histories": c} for c in common.stripe(hist, 8 if q else 30)]
     if q:
+        shards += [{"keyspace": 400000}]
         shards += [{"crash": {"run": 0, "stride": 64}}, {"crash": {"run": 3, "stride": 97}},
                    {"crash": {"run": 21, "stride": 211}},
                    {"kill": {"run": 0, "ks": 8}}, {"kill": {"run": 3, "ks": 6}},
                    {"kill": {"run": 0, "ks": 30, "mode": "line"}}, {"kill": {"run": 3, "ks": 30, "mode": "line"}}]
     else:
+        shards += [{"keyspace": 2000000}]
         shards += [{"crash": {"run": i, "stride": 1 if i in (0, 3) else 7}} for i in (0, 1, 3, 5, 6, 9, 10, 21)]
         shards += [{"kill": {"run": 0, "ks": "all"}}, {"kill": {"run": 3, "ks": "all"}},
                    {"kill": {"run": 6, "ks": 60}}, {"kill": {"run": 10, "ks": 60}},
@@ -430,6 +510,15 @@ def work(shard, res, tier, seed):
         elif "crash_state" in c:
             byname = {r["name"]: i for i, r in enumerate(RUNS)}
             crash_states(byname[c["crash_state"]["run"]], 64, res)
+        elif "keyspace" in c:
+            ks = c["keyspace"]
+            e = tempfile.mkdtemp(prefix="verif_c12k_")
+            try:
+                do_run({"name": "keyspace:first", "inputs": ks["first"], "bs": None, "t": 0, "col": "reaction"}, e)
+                run_b = {"name": "keyspace:then", "inputs": ks["then"], "bs": None, "t": 0, "col": "reaction"}
+                judge(run_b, do_run(run_b, e), res, dict(case=c))
+            finally:
+                shutil.rmtree(e, ignore_errors=True)
         elif "kill" in c:
             byname = {r["name"]: i for i, r in enumerate(RUNS)}
             kill_run(byname[c["kill"]["run"]], 6, res, c["kill"].get("mode", "write"))
@@ -438,6 +527,8 @@ def work(shard, res, tier, seed):
         for h in shard["histories"]:
             history(h, res)
         res.sample({"history": [RUNS[i]["name"] for i in shard["histories"][0]]})
+    if "keyspace" in shard:
+        keyspace(shard["keyspace"], res, seed)
     if "crash" in shard:
         crash_states(shard["crash"]["run"], shard["crash"]["stride"], res)
     if "kill" in shard:
@@ -446,8 +537,11 @@ def work(shard, res, tier, seed):
 
 def conclude_args(res, tier, seed):
     n = len(QUICK_RUNS) if tier == "quick" else len(RUNS)
-    return {"need": {"histories": 30, "histories_ending_in_cache_hit": 10, "crash_states": 20, "real_kills": 5,
-                     "real_kills:line": 3},
+    need = {"histories": 30, "histories_ending_in_cache_hit": 10, "crash_states": 20, "real_kills": 5,
+            "real_kills:line": 3}
+    if not res.counters.get("keyspace:unavailable"):  # waived when the key function is not there to hook
+        need["keyspace_payloads"] = 100000
+    return {"need": need,
             "min_cases": 30,
             "extra": {"exhaustive_subspace": "all %d ordered pairs over the %d-run alphabet; truncation prefixes with the "
                       "stride recorded per entry (every byte in the thorough tier for the one- and two-entry runs)" % (n * n, n)}}
